@@ -107,19 +107,22 @@ func (e *seqEnv) close() {
 
 // SeqStep is one trace line of the sequential family.
 type SeqStep struct {
-	K     string             `json:"k"` // reset | call
-	Tr    int                `json:"tr"`
-	I     int                `json:"i"`
-	Mode  string             `json:"mode"`
-	Coll  string             `json:"coll"`
-	Op    string             `json:"op"`
-	A     Args               `json:"a"`
-	R     Res                `json:"r"`
-	Post  []PostDoc          `json:"post"`  // documents whose observation changed since the previous line
-	Live  []CollEvs          `json:"live"`  // per collection: events delivered by the running feed since the previous line
-	Dump  []CollEvs          `json:"dump"`  // per collection whose backfill changed: Dump feed from the path's start CAS
-	Aux   []AuxObs           `json:"aux"`   // other observers (query, views) that changed
-	Start map[string]*CasRef `json:"start"` // reset lines: backfill start CAS per collection
+	K        string             `json:"k"` // reset | call
+	Tr       int                `json:"tr"`
+	I        int                `json:"i"`
+	Mode     string             `json:"mode"`
+	Coll     string             `json:"coll"`
+	Op       string             `json:"op"`
+	A        Args               `json:"a"`
+	R        Res                `json:"r"`
+	Post     []PostDoc          `json:"post"`     // documents whose observation changed since the previous line
+	Live     []CollEvs          `json:"live"`     // per collection: events delivered by the running feed since the previous line
+	Dump     []CollEvs          `json:"dump"`     // per collection whose backfill changed: Dump feed from the path's start CAS
+	Aux      []AuxObs           `json:"aux"`      // other observers (query, views) that changed
+	Start    map[string]*CasRef `json:"start"`    // reset lines: backfill start CAS per collection
+	Skiplive bool               `json:"skiplive"` // concurrent traces: feed deliveries are checked on the "feeds" line instead
+	P        string             `json:"p"`        // process that made the call
+	Shown    []*CasRef          `json:"shown"`    // CAS of the versions an Update-style callback was shown
 }
 type PostDoc struct {
 	C string `json:"c"`
@@ -190,7 +193,7 @@ func (sr *seqRunner) runPath(trNo int, ops []GenOp) error {
 		startRefs[c] = tr.C(startCas[c])
 	}
 	tr.Add(SeqStep{K: "reset", Tr: trNo, Mode: env.mode, Coll: "-", Op: "-", A: x.emptyArgs(), R: Res{Cls: "ok", Body: NoBody(), Cas: tr.C(0)},
-		Post: []PostDoc{}, Live: []CollEvs{}, Dump: []CollEvs{}, Aux: []AuxObs{}, Start: startRefs})
+		Post: []PostDoc{}, Live: []CollEvs{}, Dump: []CollEvs{}, Aux: []AuxObs{}, Start: startRefs, P: "-", Shown: []*CasRef{}})
 	prevDoc := map[string]string{}
 	{
 		// fresh keys: the trace specification starts every path from "all absent"; only deviations are logged
@@ -217,7 +220,7 @@ func (sr *seqRunner) runPath(trNo int, ops []GenOp) error {
 		a, r := x.Exec(coll, env.h1, &gop)
 		a.Key = op.Key
 		step := SeqStep{K: "call", Tr: trNo, I: i + 1, Mode: env.mode, Coll: op.Coll, Op: op.Op, A: a, R: r,
-			Post: []PostDoc{}, Live: []CollEvs{}, Dump: []CollEvs{}, Aux: []AuxObs{}, Start: startRefs}
+			Post: []PostDoc{}, Live: []CollEvs{}, Dump: []CollEvs{}, Aux: []AuxObs{}, Start: startRefs, P: "-", Shown: []*CasRef{}}
 		if r.Cas != nil && r.Cas.raw > maxCas && r.Cls == "ok" && op.Op != "SetWithMeta" && op.Op != "DeleteWithMeta" {
 			maxCas = r.Cas.raw
 		}
